@@ -7,6 +7,8 @@ Decides:
                    payload (render_console(full-of-the-variant | true, colour, max_width) / the completion
                    string verbatim with template "{}"); arms and the full/short switch are obtained from one abstract
                    walk per variant of *self, however the match is written.
+ K  colour         Color::default() is Monochrome whenever either stream is not a terminal (table over the detection outcomes), so
+                   a redirected stream receives the plain text run_inner predicts.
  K  completion marker  check_next recognises `--bpaf-complete-rev=N` whether or not the program name is known, so a real
                    process (run(), argv[0] known) answers a completion request the way run_inner predicts.
  R  run flow       OptionParser::run = run_inner(Args::current_args()); Ok -> return that value, no print,
@@ -28,7 +30,7 @@ from absint import Walker, UNKNOWN, pkey, show
 LEVEL = 'other'
 EXPLANATION = __doc__
 ASSUMPTIONS = ['std::io::_print writes to stdout and _eprint to stderr; process::exit(n) terminates with status n']
-FLOORS = {'X.exit-table': 3, 'S.stream-table': 6, 'R.run-flow': 10, 'A.argv0': 6, 'W.who': 12, 'N.non-empty': 17, 'U.usage-fallback': 1, 'K.completion-marker': 1}
+FLOORS = {'X.exit-table': 3, 'S.stream-table': 6, 'R.run-flow': 10, 'A.argv0': 6, 'W.who': 12, 'N.non-empty': 17, 'U.usage-fallback': 1, 'K.completion-marker': 1, 'K.colour': 1}
 
 EXIT_TABLE = {
     'info::OptionParser::<T>::run': 'documented: print the failure and exit with its code',
@@ -56,6 +58,7 @@ def run(ctx):
         ctx.guard(exit_table, ctx, cfg, fs)
         ctx.guard(stream_table, ctx, cfg, fs)
         ctx.guard(completion_marker, ctx, cfg, fs)
+        ctx.guard(colour_detection, ctx, cfg, fs)
         ctx.guard(run_flow, ctx, cfg, fs)
         ctx.guard(argv0, ctx, cfg, fs)
         ctx.guard(who, ctx, cfg, fs)
@@ -96,6 +99,43 @@ def completion_marker(ctx, cfg, fs):
     ctx.ob('K.completion-marker', 'check_next:rev-marker-recognised-with-and-without-name', ok,
            'for an item `--bpaf-complete-rev=...` (not a style marker) check_next returns %s on all %d paths, with the program name %s; the revision is recorded on %d path(s)' % (
                rets, len(paths), sorted(name_forks), len(wrote)), where=b.where(), cfg=cfg)
+
+def colour_detection(ctx, cfg, fs):
+    """what print_message writes into a stream that is not a terminal must be the plain text run_inner predicts: whenever
+    terminal detection says "not a terminal" for either stream, Color::default() is Monochrome - no later assignment may
+    override the detection (table: detection outcome per stream -> result)"""
+    cands = fs.find(r'buffer::console::Color as std::default::Default>::default$', required=False)
+    if not cands:
+        return
+    b = ctx.look(cands[0])
+    det = [c for c in b.calls() if c.is_(r'^supports_color::on')]
+    if not det:
+        ctx.ob('K.colour', 'Color::default:no-detection', all(True for _ in ()), 'this configuration has no colour output', cfg=cfg, nontrivial=False)
+        rets = set()
+        for p_ in Walker(b, max_paths=50).run():
+            rets.add(show(p_.ret))
+        ctx.ob('K.colour', 'Color::default:monochrome-without-colour', rets <= {'Monochrome'}, 'without terminal detection Color::default() is %s' % sorted(rets), where=b.where(), cfg=cfg)
+        return
+    table = {}
+    for out_ok in (True, False):
+        for err_ok in (True, False):
+            seen = {'n': 0}
+            def cm(w, c, store, out_ok=out_ok, err_ok=err_ok):
+                if c.is_(r'^supports_color::on'):
+                    which = show(w.opval(c.args[0], store)) if c.args else '?'
+                    ok_ = out_ok if 'Stdout' in which else err_ok if 'Stderr' in which else None
+                    if ok_ is None:
+                        return None
+                    return ('agg', 'std::option::Option', 'Some', [UNKNOWN]) if ok_ else ('agg', 'std::option::Option', 'None', [])
+                return None
+            cm.first = True
+            rets = set()
+            for p_ in Walker(b, call_model=cm, max_paths=100).run():
+                rets.add(show(p_.ret) if p_.end == 'return' else p_.end)
+            table[(out_ok, err_ok)] = sorted(rets)
+    good = all(v == ['Monochrome'] for k_, v in table.items() if not (k_[0] and k_[1])) and table[(True, True)] != ['?']
+    ctx.ob('K.colour', 'Color::default:monochrome-unless-both-streams-are-terminals', good,
+           'Color::default() by (stdout is a terminal, stderr is a terminal): %s' % {str(k_): v for k_, v in table.items()}, where=b.where(), cfg=cfg)
 
 def exit_table(ctx, cfg, fs):
     b = ctx.look(fs.one(r'^error::ParseFailure::exit_code$'))
